@@ -15,7 +15,15 @@ class P(framework.Prop):
     def spec_line(self, case):
         if case.startswith("evalast "):
             return "speceval " + case[len("evalast "):]
+        if case.startswith("search "):
+            # the specification end to end: reference parser (documented binding powers, nothing read from the source) + evaluation
+            return "refsearch " + case[len("search "):]
         return None
+
+    def spec_equal(self, sobs, iobs):
+        if sobs.startswith("ERR parse"):
+            return True     # not a sentence of the reference grammar: the property quantifies over valid expressions only (C03/C04 decide these)
+        return framework.canon(sobs) == framework.canon(iobs)
 
     def cases(self, rng, tier):
         out = []
